@@ -15,7 +15,7 @@ CLAMP = 'ite(v < 0, 0, ite(v >= n, n - 1, v))'
 
 CONTRACTS = {
     F + 'EagerEncoder.correct_vector_size': dict(
-        properties=['C10', 'C03'],
+        properties=['C10', 'C03', 'C01'],
         types={'n_dv': 'Int', 'vector': 'List[Int]'},
         returns='Tuple[List[Int],Int]',
         requires={'n_dv-nonneg': 'n_dv >= 0'},
@@ -27,7 +27,7 @@ CONTRACTS = {
         modifies=[],
     ),
     F + 'EagerEncoder.correct_vector_bounds': dict(
-        properties=['C10', 'C03'],
+        properties=['C10', 'C03', 'C01'],
         types={'vector': 'List[Int]', 'design_vars': 'List[Ref[DiscreteDV]]'},
         returns='Tuple[List[Int],Bool]',
         requires={'long-enough': 'len(vector) >= len(design_vars)',
@@ -50,7 +50,7 @@ CONTRACTS = {
         modifies=[],   # => frame obligation: the caller's vector is not mutated
     ),
     G + 'AssignmentManagerBase._correct_is_active': dict(
-        properties=['C03', 'C07', 'C10'],
+        properties=['C03', 'C07', 'C10', 'C01'],
         types={'vector': 'List[Int]'},
         returns='Tuple[Np1[Int],Np1[Bool]]',
         ensures={
